@@ -1,9 +1,18 @@
 """C31 - Method saves use optimistic concurrency without lost updates.
 
-2-3 concurrent `FromFrontend.save_method` coroutines against the real Aggregator; the engine side of the rpc channel
-suspends every round trip on a future that only the harness resolves. Every interleaving of the schedule points
-(start of a save, completion of its engine round trip) is enumerated together with the rpc outcome and the base
-version of every save. See DESIGN.md C31."""
+Two strata, both against the real code:
+
+* direct calls: 2-3 concurrent `FromFrontend.save_method` coroutines against the real Aggregator; the engine side of
+  the rpc channel suspends every round trip on a future that only the harness resolves. Every interleaving of the
+  schedule points (start of a save, completion of its engine round trip) is enumerated together with the rpc outcome
+  and the base version of every save.
+* client boundary: the same kind of histories driven through the real HTTP routes of the real AggregatorServer
+  application (POST / GET /api/process_unit/{id}/method, in-process ASGI transport), which is where a browser tab's
+  "based on version v" enters the system; bases are drawn from every version that ever existed (0 included), savers
+  start before / during / after other savers' round trips, the engine answers late, with errors, out of order, or
+  drops and reconnects (new session, version 0 again). Judged by a sequential model of the statement (judge_http).
+
+See DESIGN.md C31."""
 from __future__ import annotations
 
 import asyncio
@@ -16,14 +25,24 @@ ID = "C31"
 LEVEL = "fault_enumeration"
 TECHNIQUE = ("runtime monitoring: serial-specification oracle over every interleaving of concurrent save_method "
              "coroutines under a harness-controlled scheduler")
-RULE = ("n in {2,3} concurrent FromFrontend.save_method calls on one engine (real Aggregator, real "
+RULE = ("(1) direct: n in {2,3} concurrent FromFrontend.save_method calls on one engine (real Aggregator, real "
         "AggregatorDispatcher.rpc_call, mocked rpc channel). Schedule points per save: S_i = the coroutine starts and "
         "runs until it blocks, R_i = its engine round trip is answered and it runs until it blocks/finishes. ALL "
         "orders of the 2n points with S_i before R_i are enumerated (6 for n=2, 90 for n=3) x rpc outcome per save in "
         "{ok, caller-error reply, internal-error reply, transport exception} x base version of each save in "
         "{current-1, current, current+1}. quick: n=2 complete (864) + n=3 with all 4^3 outcomes for saves all based on "
         "the current version (5760) + n=3 with all 3^3 base patterns and every round trip succeeding (2340); thorough: "
-        "n=2 complete + n=3 complete (155520). distinct = (n, order, outcomes, bases); non-trivial = at least two saves overlap in time")
+        "n=2 complete + n=3 complete (155520). (2) client boundary: histories of POST/GET .../method requests against "
+        "the real AggregatorServer app on a fresh process unit (version 0). Steps: start a save (base = absolute "
+        "version drawn from {0, every version any GET or accepted save has shown so far, current, current+-1}), answer "
+        "the k-th pending engine round trip {ok, caller-error, internal-error, transport exception}, drop the engine "
+        "websocket (pending round trips fail), re-register + reconnect the engine (new session, version 0); a GET "
+        "after every step; all saves are drained at the end, then 0-2 late saves on old bases follow. Exhaustive "
+        "part: 2 savers after w in {0,1,2} completed saves, all 6 orders x all base pairs from {0..w+1} x outcomes "
+        "(408 histories; thorough adds 3 savers, w in {0,1}, 90 orders x all base triples: 3150); random part: 1400 "
+        "(quick) / 24000 (thorough) histories of 3-12 (16) steps, <= 5 (6) savers. distinct = (n, order, outcomes, "
+        "bases) resp. the executed step list; non-trivial = at least two saves overlap in time, or a save on an "
+        "outdated base follows a completed accepted save, or the engine reconnects")
 ASSUMPTIONS = [
     "the only suspension point of save_method is the engine round trip; the scheduler nevertheless lets a task run "
     "'until the observable state is stable', so an implementation that blocks elsewhere (e.g. on a per-engine lock) "
@@ -36,9 +55,37 @@ ASSUMPTIONS = [
     "not asserted: that a save based on the current version is accepted (the statement is 'only if'); that the "
     "engine and the aggregator end up with the same method text",
     "trusted base: asyncio's FIFO ready queue, the mocked rpc channel (RpcScript), the enumeration of orders",
+    "client boundary: 'accepted' = POST answers 200 with a version, 'rejected' = any other status; the sequential model "
+    "is the 'only if' reading of the statement: an accepted save takes effect at one instant between its request and "
+    "its response, at which the method version equals its base, returns base+1 and leaves (base+1, its text); a "
+    "rejected save has no effect whenever it happens; nothing is demanded about WHICH saves are rejected (counted: "
+    "saves on the current version that ran alone). Every GET between steps must show exactly the model state, which "
+    "is how 'a rejected save changes nothing' and 'no accepted text is lost or duplicated' are judged",
+    "client boundary: the harness acts only at quiescent points (no worker-thread call of the app in flight - counted "
+    "by wrapping anyio.to_thread.run_sync - and the event loop's ready queue empty), so every step is atomic for the "
+    "model; an engine drop runs the dispatcher's disconnect handlers first and then fails the pending round trips; "
+    "a closed channel raises for new rpc calls like the real RpcChannel",
+    "client boundary: a freshly (re)registered process unit shows version 0 and no lines (Mdl.Method.empty()); a "
+    "different first GET of a session crashes the shard (inconclusive), it is not judged. Version numbers of "
+    "different engine sessions are the same 'version' for the statement (a tab of the previous session whose base "
+    "happens to equal the current number may be accepted)",
+    "client boundary: the auth dependencies run as shipped (no authentication configured: anonymous user, no roles); "
+    "a transport-exception reply makes rpc_call close the channel object, the engine drop that would follow in "
+    "production is a separate, independently generated step",
 ]
 REQUIRED = {"cases_with_overlapping_saves_on_current_version": 100, "saves_accepted": 500, "method_set_events": 500,
-            "rpc_issued": 1000}
+            "rpc_issued": 1000,
+            # client-boundary stratum: the classes of saves the statement quantifies over were reached AND judged
+            "http_histories_judged_by_serial_model": 1500, "http_reads": 5000,
+            "http_saves_accepted": 1500, "http_saves_rejected": 1500,
+            "http_late_stale_saves_after_completed_save": 600,
+            "http_late_saves_based_on_version_0_after_completed_save": 400,
+            "http_saves_started_during_a_round_trip": 400,
+            "http_saves_on_current_version_started_during_a_round_trip": 250,
+            "http_replies_delivered_while_another_save_waits": 250,
+            "http_engine_replies_failed": 200, "http_engine_reconnects": 300,
+            "http_stale_saves_based_on_version_0_after_reconnect": 50,
+            "http_saves_after_reconnect_based_on_a_version_of_the_previous_session": 50}
 EXHAUSTIVE_ALL = True
 
 KNOWN = "C31.version_checked_only_before_engine_roundtrip"
@@ -308,6 +355,466 @@ def _jcase(case):
     return {"n": n, "order": list(order), "outcomes": list(outcomes), "offs": list(offs)}
 
 
+# ======================================================================================================================
+# client-boundary stratum: saves and reads go through the real HTTP routes (POST/GET /api/process_unit/{id}/method) of
+# the real AggregatorServer application; only the engine end of the rpc channel is the harness. What is recorded is what
+# a browser tab sees: the base version it sent, the status / version it got back, and what GET returns between events.
+# The oracle is the sequential model of optimistic concurrency at that boundary (judge_http).
+
+HTTP_EXHAUSTIVE_TEXT = {
+    "quick": "HTTP boundary, 2 savers after w in {0,1,2} completed saves: all 6 orders x every pair of bases from "
+             "{0..w+1} (all versions that ever existed, incl. 0, the current one and the next) x rpc outcomes "
+             "{ok, caller-error}^2 (w<=1) / ok (w=2)",
+    "thorough": "HTTP boundary, 2 savers after w in {0,1,2} completed saves: all 6 orders x every pair of bases from "
+                "{0..w+1} x rpc outcomes {ok, caller-error}^2 (w<=1) / ok (w=2); 3 savers after w in {0,1}: all 90 orders "
+                "x every triple of bases from {0..w+1}, all rpc ok",
+}
+HTTP_RANDOM = {"quick": 1400, "thorough": 24000}
+
+
+def _explicit(w, order, bases, outcomes):
+    steps: list = []
+    for _ in range(w):
+        steps += [["start", ["cur", 0]], ["reply", 0, 0]]
+    seen = set()
+    for i in order:
+        if i not in seen:
+            seen.add(i)
+            steps.append(["start", ["abs", bases[i]]])
+        else:
+            steps.append(["reply_of", w + i, outcomes[i]])
+    return {"kind": "http", "steps": steps}
+
+
+def http_cases(tier, seed):
+    cases = []
+    for w in (0, 1, 2):
+        for od in orders(2):
+            for bases in itertools.product(range(0, w + 2), repeat=2):
+                for oc in (itertools.product((0, 1), repeat=2) if w <= 1 else [(0, 0)]):
+                    cases.append(_explicit(w, od, bases, oc))
+    if tier != "quick":
+        for w in (0, 1):
+            for od in orders(3):
+                for bases in itertools.product(range(0, w + 2), repeat=3):
+                    cases.append(_explicit(w, od, bases, (0, 0, 0)))
+    for j in range(HTTP_RANDOM[tier]):
+        cases.append({"kind": "http", "rand": seed * 1000003 + j, "tier": tier})
+    return cases
+
+
+def _random_steps(rseed, tier, view):
+    """online generator of one history: yields steps (or "DRAIN"); `view` is the runner's observed state"""
+    import random
+    rnd = random.Random(rseed)
+    big = tier != "quick"
+    max_savers = 6 if big else 5
+    length = rnd.randint(3, 16 if big else 12)
+    warm = rnd.choice((0, 0, 0, 1, 1, 2, 3))
+    late = rnd.choice((0, 1, 1, 2))
+
+    def base_spec(late_save=False):
+        x = rnd.random()
+        if late_save:
+            return ["abs", 0] if x < 0.4 else ["seen", rnd.randrange(64)] if x < 0.8 else ["cur", 0]
+        if x < 0.30:
+            return ["cur", 0]
+        if x < 0.55:
+            return ["abs", 0]
+        if x < 0.85:
+            return ["seen", rnd.randrange(64)]
+        if x < 0.95:
+            return ["cur", 1]
+        return ["cur", -1]
+
+    def outcome():
+        return 0 if rnd.random() < 0.65 else rnd.randrange(1, 4)
+
+    for _ in range(warm):
+        yield ["start", ["cur", 0]]
+        yield ["reply", 0, 0]
+    for _ in range(length):
+        can_start = view["started"] < max_savers
+        if view["offline"]:
+            x = rnd.random()
+            if x < 0.55:
+                yield ["connect"]
+            elif x < 0.9 and can_start:
+                yield ["start", base_spec()]
+            else:
+                yield ["reply", rnd.randrange(4), outcome()]
+            continue
+        w_start = 40 if can_start else 0
+        w_reply = 40 if view["pending"] else 4
+        w_drop = 6
+        x = rnd.random() * (w_start + w_reply + w_drop)
+        if x < w_start:
+            yield ["start", base_spec()]
+        elif x < w_start + w_reply:
+            yield ["reply", rnd.randrange(4), outcome()]
+        else:
+            yield ["drop"]
+    yield "DRAIN"
+    for _ in range(late):
+        yield ["start", base_spec(True)]
+        yield "DRAIN"
+
+
+class HttpEnv:
+    def __init__(self):
+        from opv.rigs.frontend_rig import HttpRig
+        install_method_hook()
+        self.rig = HttpRig()
+        self.n = 0
+
+    async def setup(self):
+        await self.rig.start()
+
+
+FRESH = (0, None)      # (version, first line) of a freshly (re)registered process unit: Mdl.Method.empty()
+
+
+async def run_http_history(env: HttpEnv, case, res: Result):
+    import os
+    import openpectus.protocol.messages as M
+    from opv.rigs.frontend_rig import rpc_reply
+
+    rig = env.rig
+    env.n += 1
+    computer = f"pc31h{os.getpid()}n{env.n}"
+    eid = await rig.register(computer, "uod31")
+    url = f"/api/process_unit/{eid}/method"
+    hid = f"h{env.n}"
+    st = {"ch": await rig.connect(eid), "offline": False}
+    view = {"started": 0, "pending": 0, "offline": False}
+    savers: list[dict] = []
+    call_of: dict[int, dict] = {}
+    issue_order: list[int] = []
+    executed: list = []          # concrete, replayable steps
+    acts: list = []              # per step: "drop" / "connect" / None (what the model applies at the start of the step)
+    reads: list = []             # reads[k + 1] = GET after step k; reads[0] = GET before the first step
+    seen: set[int] = {0}
+    last_version = [0]
+
+    def hook(ch):
+        def on_issue(call):
+            txt = json.dumps(call["msg"], default=str)
+            for sv in savers:
+                if sv["tag"] in txt:
+                    call_of[sv["i"]] = call
+                    call["saver"] = sv["i"]
+                    issue_order.append(sv["i"])
+        ch.script.on_issue = on_issue
+    hook(st["ch"])
+
+    async def read():
+        r = await rig.client.get(url)
+        if r.status_code == 404:
+            obs = None
+        elif r.status_code == 200:
+            j = r.json()
+            obs = (j["version"], j["lines"][0]["content"] if j["lines"] else None)
+            seen.add(obs[0])
+            last_version[0] = obs[0]
+        else:
+            raise RuntimeError(f"C31 http rig: GET {url} -> {r.status_code} {r.text[:200]}")
+        res.count("http_reads")
+        return obs
+
+    async def post(sv):
+        body = {"version": sv["base"], "last_author": "",
+                "lines": [{"id": "1", "content": sv["tag"]}, {"id": "2", "content": ""}]}
+        r = await rig.client.post(url, json=body)
+        sv["status"] = r.status_code
+        if r.status_code == 200:
+            sv["acc"] = True
+            sv["ret"] = r.json()["version"]
+
+    def pending():
+        return [] if st["ch"] is None else st["ch"].script.pending()
+
+    def in_flight():
+        return [sv for sv in savers if sv["resp"] is None]
+
+    def resolve(call, oc):
+        o = OUTCOMES[oc]
+        if o == "ok":
+            call["future"].set_result(rpc_reply(M.SuccessMessage()))
+        elif o == "err_caller":
+            call["future"].set_result(rpc_reply(M.ErrorMessage(message="engine refused", caller_error=True)))
+        elif o == "err_internal":
+            call["future"].set_result(rpc_reply(M.ErrorMessage(message="engine failed", caller_error=False)))
+        else:
+            call["future"].set_exception(ConnectionError("opv: transport failure"))
+        res.count("http_rpc_resolved")
+        if o != "ok":
+            res.count("http_engine_replies_failed")
+
+    async def step(spec):
+        k = len(executed)
+        act = None
+        kind = spec[0]
+        if kind == "start":
+            how, arg = spec[1]
+            if how == "abs":
+                base = arg
+            elif how == "cur":
+                base = max(0, last_version[0] + arg)
+            else:
+                vs = sorted(seen)
+                base = vs[arg % len(vs)]
+            flying = in_flight()
+            sv = {"i": len(savers), "base": base, "tag": f"opv-{hid}-save-{len(savers)}", "inv": k, "resp": None,
+                  "acc": False, "ret": None, "status": None}
+            # bookkeeping of the class of this save, from what the client side knows at this moment
+            cur = last_version[0]
+            done_acc = [s for s in savers if s["resp"] is not None and s["acc"] and s["epoch"] == st.get("epoch", 0)]
+            sv["epoch"] = st.get("epoch", 0)
+            if not st["offline"]:
+                if pending():
+                    res.count("http_saves_started_during_a_round_trip")
+                    if base == cur:
+                        res.count("http_saves_on_current_version_started_during_a_round_trip")
+                if not flying and done_acc and base != cur:
+                    res.count("http_late_stale_saves_after_completed_save")
+                    if base == 0:
+                        res.count("http_late_saves_based_on_version_0_after_completed_save")
+                if base == cur and not flying:
+                    res.count("http_saves_on_current_version_started_alone")
+                if st.get("epoch", 0) > 0 and base > cur:
+                    res.count("http_saves_after_reconnect_based_on_a_version_of_the_previous_session")
+                if st.get("epoch", 0) > 0 and base == 0 and cur > 0:
+                    res.count("http_stale_saves_based_on_version_0_after_reconnect")
+            else:
+                res.count("http_saves_started_while_engine_offline")
+            savers.append(sv)
+            sv["task"] = asyncio.get_running_loop().create_task(post(sv))
+            view["started"] = len(savers)
+            res.count("http_saves_started")
+            executed.append(["start", ["abs", base]])
+        elif kind in ("reply", "reply_of"):
+            call = None
+            if kind == "reply":
+                p = pending()
+                if p:
+                    call = p[spec[1] % len(p)]
+                    if call is not p[0]:
+                        res.count("http_replies_out_of_issue_order")
+            else:
+                call = call_of.get(spec[1])
+                if call is not None and call["future"].done():
+                    call = None
+            if call is None:
+                res.count("http_reply_steps_without_pending_rpc")
+                executed.append(["noop"])
+            else:
+                if any(sv["resp"] is None and call_of.get(sv["i"]) is None for sv in savers):
+                    res.count("http_replies_delivered_while_another_save_waits")
+                resolve(call, spec[2])
+                executed.append(["reply_of", call["saver"], spec[2]])
+        elif kind == "drop":
+            if st["offline"]:
+                executed.append(["noop"])
+            else:
+                if in_flight():
+                    res.count("http_drops_with_saves_in_flight")
+                await rig.drop(st["ch"])
+                st["offline"] = view["offline"] = True
+                st["ch"] = None
+                act = "drop"
+                res.count("http_engine_drops")
+                executed.append(["drop"])
+        elif kind == "connect":
+            if not st["offline"]:
+                executed.append(["noop"])
+            else:
+                if in_flight():
+                    res.count("http_connects_with_saves_in_flight")
+                eid2 = await rig.register(computer, "uod31")
+                assert eid2 == eid
+                st["ch"] = await rig.connect(eid)
+                hook(st["ch"])
+                st["offline"] = view["offline"] = False
+                st["epoch"] = st.get("epoch", 0) + 1
+                act = "connect"
+                res.count("http_engine_reconnects")
+                executed.append(["connect"])
+        else:
+            executed.append(["noop"])
+        acts.append(act)
+        if not await rig.quiesce():
+            raise RuntimeError("C31 http rig: the application did not become quiescent")
+        for sv in savers:
+            if sv["resp"] is None and sv["task"].done():
+                sv["task"].result()          # harness errors surface here
+                sv["resp"] = k
+                if sv["acc"]:
+                    seen.add(sv["ret"])
+        view["pending"] = len(pending())
+        reads.append(await read())
+
+    async def drain():
+        for _ in range(4 * len(savers) + 6):
+            if not in_flight():
+                return
+            if st["offline"]:
+                await step(["connect"])
+            elif pending():
+                await step(["reply", 0, 0])
+                res.count("http_drain_steps")
+            else:
+                break
+        if in_flight():
+            for sv in in_flight():
+                sv["task"].cancel()
+            raise RuntimeError(f"C31 http rig: saves never completed: steps={executed} "
+                               f"saves={[(s['base'], s['status']) for s in savers]}")
+
+    reads.append(await read())
+    if reads[0] != FRESH:
+        raise RuntimeError(f"C31 http rig: a freshly registered unit shows {reads[0]}, expected {FRESH}")
+    if "steps" in case:
+        for spec in case["steps"]:
+            await step(spec)
+        await drain()
+    else:
+        for spec in _random_steps(case["rand"], case.get("tier", "quick"), view):
+            if spec == "DRAIN":
+                await drain()
+            else:
+                await step(spec)
+        await drain()
+    # leave the server clean for the next history
+    if not st["offline"]:
+        await rig.drop(st["ch"])
+        await rig.quiesce()
+
+    hist = {"steps": executed, "acts": acts, "reads": reads,
+            "saves": [{k: sv[k] for k in ("i", "base", "tag", "inv", "resp", "acc", "ret", "status")} for sv in savers]}
+    for k, a in enumerate(acts):
+        if a == "connect" and reads[k + 1] != FRESH and not any(s["inv"] <= k <= s["resp"] for s in hist["saves"]):
+            raise RuntimeError(f"C31 http rig: after a reconnect the unit shows {reads[k + 1]}, expected {FRESH}")
+    viol = judge_http(hist, res)
+    n_acc = sum(1 for s in hist["saves"] if s["acc"])
+    res.count("http_histories")
+    res.count("http_saves_accepted", n_acc)
+    res.count("http_saves_rejected", len(savers) - n_acc)
+    if n_acc >= 2:
+        res.count("http_histories_with_two_or_more_accepted_saves")
+    if len(set(issue_order)) >= 2 and issue_order != sorted(issue_order):
+        res.count("http_histories_engine_saw_saves_out_of_start_order")
+    overlap = any(a["inv"] < b["inv"] <= a["resp"] for a in hist["saves"] for b in hist["saves"] if a is not b)
+    if overlap:
+        res.count("http_histories_with_overlapping_saves")
+    stale_late = any(b["base"] != reads[b["inv"]][0] for b in hist["saves"] if reads[b["inv"]] is not None
+                     and any(a["acc"] and a["resp"] < b["inv"] for a in hist["saves"]))
+    nontrivial = overlap or stale_late or any(acts)
+    res.case(("http", executed) if nontrivial else None,
+             sample={"http_steps": executed, "saves": [[s["base"], s["status"], s["ret"]] for s in hist["saves"]],
+                     "reads": [list(r) if r else None for r in reads]})
+    for mech, msg in viol:
+        res.violation(mech, msg, {"kind": "http", "steps": executed})
+
+
+def judge_http(hist, res: Result | None = None):
+    """Sequential model at the client boundary. State: offline | (version, first line). A save takes effect at one
+    instant between its request and its response (steps inv..resp); an ACCEPTED save needs state.version == base at
+    that instant, returns base + 1 and leaves (base + 1, its text); a REJECTED save is a no-op whenever it happens (the
+    statement is 'only if': nothing is demanded about which saves get rejected). drop / connect apply at the start
+    of their step; the GET after every step must show exactly the model state. The history is explained iff some
+    choice of instants and orders satisfies all of that; the search keeps the set of reachable model states per
+    step. Returns [(mechanism, message)] (empty = explained)."""
+    steps, acts, reads, saves = hist["steps"], hist["acts"], hist["reads"], hist["saves"]
+    acc = [s for s in saves if s["acc"]]
+    out: list[tuple] = []
+
+    def render():
+        sv = "; ".join(f"save{s['i']}(base {s['base']}, steps {s['inv']}..{s['resp']}) -> "
+                       + (f"accepted v{s['ret']}" if s["acc"] else f"rejected {s['status']}") for s in saves)
+        rd = [("offline" if r is None else f"v{r[0]}:{r[1]}") for r in reads]
+        return f"steps={steps} | {sv} | GET before/after each step: {rd}"
+
+    # ---- clauses that need no search (clearer messages); the model below subsumes them
+    stale = []
+    for s in acc:
+        window = reads[s["inv"]: s["resp"] + 2]           # GET before the start step .. GET after the response step
+        reset = any(a for a in acts[s["inv"]: s["resp"] + 1])
+        vs = [r[0] for r in window if r is not None]
+        if not reset and vs and not (min(vs) <= s["base"] <= max(vs)):
+            stale.append((s, vs))
+    for s, vs in stale:
+        out.append(("C31.save_on_stale_version_accepted",
+                    f"HTTP boundary: save{s['i']} based on version {s['base']} was accepted (returned {s['ret']}) although "
+                    f"the method version was {sorted(set(vs))} from before its request to after its response | " + render()))
+    if not out:
+        for s in acc:
+            if s["ret"] != s["base"] + 1:
+                out.append(("C31.accepted_save_does_not_increment_by_one",
+                            f"HTTP boundary: save{s['i']} based on version {s['base']} was accepted as version {s['ret']} | "
+                            + render()))
+    # ---- the model
+    states = {(reads[0] is not None, reads[0][0] if reads[0] else None, reads[0][1] if reads[0] else None, frozenset())}
+    explored = 0
+    failed_at = None
+    for k in range(len(steps)):
+        cand = [s for s in acc if s["inv"] <= k <= s["resp"]]
+        must = frozenset(s["i"] for s in cand if s["resp"] == k)
+        obs = reads[k + 1]
+        nxt = set()
+        stack = []
+        for (on, v, c, done) in states:
+            if acts[k] == "drop":
+                on, v, c = False, None, None
+            elif acts[k] == "connect":
+                on, v, c = True, FRESH[0], FRESH[1]
+            stack.append((on, v, c, done))
+        visited = set()
+        while stack:
+            stt = stack.pop()
+            if stt in visited:
+                continue
+            visited.add(stt)
+            on, v, c, done = stt
+            if must <= done and ((obs is None and not on) or (obs is not None and on and obs == (v, c))):
+                nxt.add(stt)
+            if on:
+                for s in cand:
+                    if s["i"] not in done and s["base"] == v and s["ret"] == v + 1:
+                        stack.append((True, v + 1, s["tag"], done | {s["i"]}))
+        explored += len(visited)
+        if not nxt:
+            failed_at = k
+            break
+        states = nxt
+    if res is not None:
+        res.count("http_model_states_explored", explored)
+        res.count("http_histories_judged_by_serial_model")
+    if failed_at is not None and not out:
+        k = failed_at
+        rej_tags = {s["tag"] for s in saves if not s["acc"]}
+        obs = reads[k + 1]
+        if obs is not None and obs[1] in rej_tags:
+            mech = "C31.rejected_save_changed_method"
+            why = f"the GET after step {k} shows the text of a rejected save"
+        elif len({s["base"] for s in acc}) < len(acc) and not any(acts):
+            mech = None
+            same = {}
+            for s in acc:
+                same.setdefault(s["base"], []).append(s["i"])
+            why = f"saves based on the same version were both accepted: { {b: l for b, l in same.items() if len(l) > 1} }"
+        else:
+            mech = None
+            why = f"no serial order of the accepted saves explains the GET after step {k}"
+            vs = {x[1] for x in visited if x[0]}
+            late = [s for s in acc if s["resp"] == k and s["base"] not in vs]
+            if late:
+                mech = "C31.save_on_stale_version_accepted"
+                why = ("; ".join(f"save{s['i']} based on version {s['base']} was accepted (returned {s['ret']})" for s in late)
+                       + f" but had to take effect by step {k}, where the method version could only be {sorted(vs)}")
+        out.append((mech, f"HTTP boundary: {why} (model states before step {k}: "
+                          f"{sorted(((s[1], s[2]) for s in states if s[0]), key=str)[:4]}) | " + render()))
+    return out
+
 def run_shard(spec):
     from opv.rigs.frontend_rig import run
     res = Result()
@@ -324,17 +831,51 @@ def run_shard(spec):
         run(main)
     finally:
         env.rig.close()
+    # client-boundary stratum: same shard, after the direct-call rig is gone (both configure the global database module)
+    hcases = http_cases(spec["tier"], spec["seed"])
+    hmine = [c for idx, c in enumerate(hcases) if (idx + spec.get("rot", 0)) % k == spec["shard"]]
+    try:
+        run_http_cases(hmine, res)
+    except Exception as ex:
+        # a harness assumption of the HTTP rig broke. Violations already witnessed by this shard stand (run_check ranks
+        # 'violated' above 'inconclusive' anyway); without any, the shard crashes => INCONCLUSIVE
+        if not res.violations:
+            raise
+        res.notes.append(f"HTTP stratum of shard {spec['shard']} aborted after violations were recorded: {ex!r}"[:300])
     if spec["shard"] == 0:
         res.exhaustive_parts.append(
             "n=2: all 6 orders x 4^2 rpc outcomes x 3^2 base patterns" + (
                 "; n=3: all 90 orders x 4^3 outcomes (bases all current) and all 90 orders x 3^3 base patterns (all rpc ok)"
                 if spec["tier"] == "quick" else "; n=3: all 90 orders x 4^3 rpc outcomes x 3^3 base patterns"))
+        res.exhaustive_parts.append(HTTP_EXHAUSTIVE_TEXT[spec["tier"]])
     return res
+
+
+def run_http_cases(cases, res: Result):
+    from opv.rigs.frontend_rig import run
+    if not cases:
+        return
+    env = HttpEnv()
+
+    async def main():
+        await env.setup()
+        try:
+            for c in cases:
+                await run_http_history(env, c, res)
+        finally:
+            await env.rig.aclose()
+    try:
+        run(main)
+    finally:
+        env.rig.close()
 
 
 def replay(case):
     from opv.rigs.frontend_rig import run
     res = Result()
+    if case.get("kind") == "http":
+        run_http_cases([case], res)
+        return res
     env = Env()
     c = (case["n"], tuple(case["order"]), tuple(case["outcomes"]), tuple(case["offs"]))
 
